@@ -566,7 +566,12 @@ pub fn on_run_alignment(g: &mut G) -> Scenario {
             if g.chance(250) {
                 steps.push(Op::Yield(g.range(1, 3) as u32));
             } else {
-                let d = g.pick(&[1u64, 2, 3, 5]);
+                let mut d = g.pick(&[1u64, 2, 3, 5]);
+                if g.chance(60) {
+                    // a round that stays pending for seconds of virtual time while nothing arrives (anything periodic in the
+                    // actor loop - a feature's idle timer, say - would cut it short and start it again)
+                    d = g.pick(&[1000u64, 1500, 2500, 61_000]);
+                }
                 t += d;
                 boundaries.push(t);
                 steps.push(Op::Sleep(d));
@@ -842,10 +847,14 @@ fn chain_msg(g: &mut G, from: usize, len: usize, back_to: usize, pad: bool) -> M
 }
 
 /// C14: cycles that must close in every schedule. Placement: 0 handler chain, 1 on_start-headed,
-/// 2 on_run-headed, 3 on_stop-headed, 4 on_start ring, 5 on_stop ring.
+/// 2 on_run-headed, 3 on_stop-headed, 4 on_start ring, 5 on_stop ring, 6 parked first ask, 7 on_stop closes the cycle
+/// over a request that its actor left unhandled in the mailbox.
 pub fn forced_cycle(g: &mut G, index: u64) -> Scenario {
-    let len = 1 + (index % 5) as usize;
-    let placement = (index / 5) % 7;
+    let mut len = 1 + (index % 5) as usize;
+    let placement = (index / 5) % 8;
+    if placement == 7 && len == 1 {
+        len = 2;
+    }
     let mut actors: Vec<ActorSpec> = (0..len).map(|_| ActorSpec { cap: Some(g.pick(&[1usize, 2, 32])), ..Default::default() }).collect();
     let mut clients: Vec<Vec<Op>> = Vec::new();
     match placement {
@@ -913,6 +922,20 @@ pub fn forced_cycle(g: &mut G, index: u64) -> Scenario {
                 let m = Msg::work(g.mid());
                 actors[i].on_start = vec![ask_variant(g, 50 + ((i + 1) % len) as u32, m)];
             }
+        }
+        7 => {
+            // the closing ask sits in actor 0's on_stop, and the edge into actor 0 belongs to a request that actor 0 never
+            // handles: it is still queued (or waiting for a slot) when actor 0 leaves its message loop, because a stop
+            // request queued ahead of it, or a kill, ends the loop first. The chain 1 -> ... -> 0 is waiting all the
+            // same, so on_stop's ask to actor 1 closes a cycle in every schedule.
+            let busy = g.range(25, 40);
+            clients.push(vec![Op::Tell { h: 0, m: Msg::with(g.mid(), vec![Op::Sleep(busy)]) }]);
+            let end = if g.chance(500) { Op::Stop { h: 0 } } else { Op::Kill { h: 0 } };
+            clients.push(vec![Op::Sleep(1), end]);
+            let chain = chain_msg(g, 1, len, 0, true);
+            clients.push(vec![Op::Sleep(3), if g.chance(500) { Op::Tell { h: 1, m: chain } } else { Op::Ask { h: 1, m: chain } }]);
+            let ping = Msg::work(g.mid());
+            actors[0].on_stop = vec![ask_variant(g, 51, ping)];
         }
         6 => {
             // parked first ask: B fills its own mailbox, so A's ask to B is still waiting for a slot
